@@ -269,6 +269,13 @@ MODELLED_PDUS = ["ack", "prompt", "keep_alive", "nak", "file_data"]
 TIE_ONLY_PDUS = ["eof", "finished", "metadata"]
 
 
+def _cfdp_declared(d: bytes) -> Optional[int]:
+    """whole-PDU length the fixed header octets declare (None with fewer than four octets)"""
+    if len(d) < 4:
+        return None
+    return (d[1] << 8 | d[2]) + 4 + 2 * (((d[3] >> 4) & 7) + 1) + ((d[3] & 7) + 1)
+
+
 def _pdu_try(k: PduKind, buf: bytes):
     """('ok', fields) | ('err', category) for documented refusals; undocumented exceptions propagate"""
     try:
@@ -288,12 +295,17 @@ def _pdu_eval(a) -> Dict[str, Any]:
     k = PDU_KINDS[a["kind"]]
     unit, suffix, alt = unhx(a["unit"]), unhx(a["suffix"]), unhx(a["alt"])
     buf = unit + suffix
-    trailing = "none" if not suffix else "decoded"
+    declared = _cfdp_declared(buf)
+    longer = declared is not None and declared < len(buf)
+    trailing = "decoded" if longer else "none"
     try:
         obj = k.decode(buf)
     except BaseException as e:  # noqa
-        if suffix and exc_category(e) in DOCUMENTED:
-            buf, trailing = unit, "refused"          # one of the two allowed behaviours
+        if longer and exc_category(e) in DOCUMENTED:
+            # refusing a buffer that is longer than the PDU it declares is one of the two allowed
+            # behaviours: evaluate the declared PDU alone (same rule as the Lean op, wherever the
+            # caller split the buffer)
+            buf, trailing = buf[:declared], "refused"
             obj = k.decode(buf)
         else:
             raise
@@ -493,11 +505,11 @@ def gen_pdu(kind: str, rng: random.Random, crc: Optional[int] = None, large: Opt
         return c06f.spec_nak(a, c06f.fss_val(rng, a["large"]), c06f.fss_val(rng, a["large"]), c06f.rand_segs(rng, a["large"], n))
     conf = c06f._conf(a)
     if kind == "eof":
-        cond = rng.choice([ConditionCode.NO_ERROR, ConditionCode.FILE_CHECKSUM_FAILURE, ConditionCode.CANCEL_REQUEST_RECEIVED])
+        cond = rng.choice([ConditionCode.NO_ERROR, ConditionCode.NO_ERROR, ConditionCode.FILE_CHECKSUM_FAILURE, ConditionCode.CANCEL_REQUEST_RECEIVED])
         fault = None if cond == ConditionCode.NO_ERROR else EntityIdTlv(rbytes(rng, rng.choice([1, 2, 4])))
         return bytes(EofPdu(conf, rbytes(rng, 4), c06f.fss_val(rng, a["large"]), fault, cond).pack())
     if kind == "finished":
-        cond = rng.choice([ConditionCode.NO_ERROR, ConditionCode.FILESTORE_REJECTION, ConditionCode.CHECK_LIMIT_REACHED])
+        cond = rng.choice([ConditionCode.NO_ERROR, ConditionCode.NO_ERROR, ConditionCode.FILESTORE_REJECTION, ConditionCode.CHECK_LIMIT_REACHED])
         fault = None if cond == ConditionCode.NO_ERROR else EntityIdTlv(rbytes(rng, rng.choice([1, 2, 4])))
         resp = []
         for _ in range(rng.choice([0, 0, 1, 2])):
@@ -525,6 +537,9 @@ def pdu_suffixes(rng: random.Random, kind: str, raw: bytes) -> List[Tuple[str, b
         ("segment-request", rbytes(rng, 2 * w)),                   # exactly one request of this PDU's width
         ("valid-tlv", enc_tlv(rng.choice(c08.TLV_TYPES), rbytes(rng, rng.choice([0, 1, 4, 9])))),
         ("fs-response-tlv", enc_fs(rng, True)),
+        # what EOF / Finished parse after their fixed parameters: a fault-location (entity id) TLV
+        ("entity-id-tlv", enc_tlv(6, rbytes(rng, rng.choice([1, 2, 4, 8])))),
+        ("two-tlvs", enc_tlv(6, rbytes(rng, 2)) + enc_tlv(rng.choice(c08.TLV_TYPES), rbytes(rng, 3))),
         ("same-kind", gen_pdu(kind, rng)),
         ("itself", raw),
         ("other-kind", gen_pdu(rng.choice([k for k in MODELLED_PDUS if k != kind]), rng)),
